@@ -132,6 +132,15 @@ def gen_one(rng):
 
 
 def gen(rng):
+    if rng.random() < 0.12:
+        hosts = rng.sample(["good.sim.test", "other.sim.test", "a.wild.sim.test"], 2)
+        steps = []
+        for h in hosts:
+            steps.append(_sc(host=h, cert=rng.choice(("good", "foreign-good", "wild")), cert_reqs=rng.choice((None, None, "NONE")),
+                             check_hostname=rng.choice((None, None, False)), opt_anchor=rng.choice(("none", "ca_file", "ca_file"))))
+        return {"concurrent": steps, "policy": rng.choice(({"kind": "prob", "p_line": 1 / 8, "p_call": 0.3}, {"kind": "prob", "p_line": 1 / 64, "p_call": 0.3},
+                                                          {"kind": "pct", "d": 2, "len": 3000}, {"kind": "coop", "p_call": 0.3})),
+                "seed": rng.randrange(1 << 30)}
     if rng.random() < 0.5:
         return _gen_single(rng)
     # a relaxed connection first, then stricter ones: option state must not leak inside one process
@@ -177,6 +186,8 @@ def _custom_context(kind):
 
 def run(sc, choices=None):
     """one scenario = 1..3 successive connections in ONE process/world (option state must not leak between them)."""
+    if sc.get("concurrent"):
+        return _run_concurrent(sc, choices)
     steps = sc.get("steps")
     if steps is None:
         return _run_one(sc, None)
@@ -204,6 +215,118 @@ def run(sc, choices=None):
     res.sig = repr(sigs)
     res.nontrivial = True
     res.probes["successive_connections"] = 1
+    return res
+
+
+def _expect(sc):
+    """(want_ok, contradictory, cell) from the documented meaning of the options; no custom context / env here."""
+    cr, ch, oa = sc.get("cert_reqs"), sc.get("check_hostname"), sc.get("opt_anchor", "none")
+    verify = cr != "NONE"
+    match = (ch is not False) and verify if ch is None else bool(ch)
+    if cr == "NONE" and ch is None:
+        match = False
+    anchors = {ANCHORS[oa][2]} if oa != "none" else set()
+    name = sc.get("server_hostname") or sc["host"]
+    trusted = CERT_ISSUER[sc["cert"]] in anchors
+    fits = name_fits(sc["cert"], name)
+    contradictory = cr == "NONE" and ch is True
+    return (not verify or trusted) and (not match or fits), contradictory, f"verify={int(verify)},match={int(match)},trusted={int(trusted)},fits={int(fits)}"
+
+
+def _run_concurrent(sc, choices):
+    """two connections made at the same time by two threads of one process: each must be judged by its own options."""
+    from .. import seams
+    res = Result()
+    steps = sc["concurrent"]
+    if len(steps) != 2 or steps[0]["host"] == steps[1]["host"]:
+        raise InvalidScenario("two steps with different hosts")
+    for st in steps:
+        if st.get("scheme", "wss") != "wss" or st.get("env_anchor", "none") != "none" or st.get("context") or st.get("proxy") \
+                or st["host"] not in HOSTS or st["cert"] not in CERT_ISSUER or st.get("ssl_version"):
+            raise InvalidScenario("concurrent steps: plain wss, options only")
+    policy = dict(sc.get("policy") or {"kind": "prob", "p_line": 1 / 8, "p_call": 0.3})
+    w = World(seed=int(sc.get("seed", 1)), step_cap=900_000, policy=policy, choices=choices)
+    tps = {}
+    for i, st in enumerate(steps):
+        def origin(conn, i=i, st=st):
+            tp = simtls.TLSPeer(w, WSPeer(w, {}), st["cert"])
+            tps[i] = tp
+            return tp
+        addr = HOSTS[st["host"]]
+        if not _is_ip(st["host"]):
+            w.net.add_host(st["host"], [(_rs.AF_INET, addr)])
+        w.net.listen(addr, 443, origin)
+    outcomes = [None, None]
+    with w:
+        ws = w.ws
+        simtls.install()
+
+        def work(i):
+            st = steps[i]
+            sslopt = {}
+            if st.get("cert_reqs") is not None:
+                sslopt["cert_reqs"] = ssl.CERT_NONE if st["cert_reqs"] == "NONE" else ssl.CERT_REQUIRED
+            if st.get("check_hostname") is not None:
+                sslopt["check_hostname"] = st["check_hostname"]
+            if st.get("opt_anchor", "none") != "none":
+                a = ANCHORS[st["opt_anchor"]]
+                sslopt["ca_certs" if a[0] == "file" else "ca_cert_path"] = simtls.cert(a[1])
+            if st.get("server_hostname"):
+                sslopt["server_hostname"] = st["server_hostname"]
+            c = ws.WebSocket(sslopt=sslopt)
+            c.settimeout(3)
+            try:
+                c.connect(f"wss://{st['host']}/")
+                outcomes[i] = ("ok",)
+                try:
+                    c.send("hello")
+                    c.close(timeout=1)
+                except SimAbort:
+                    raise
+                except BaseException:  # noqa
+                    pass
+            except SimAbort:
+                outcomes[i] = ("abort",)
+                raise
+            except BaseException as e:  # noqa
+                outcomes[i] = ("exc", exc_name(e), isinstance(e, ssl.SSLCertVerificationError), isinstance(e, ValueError), str(e)[:160])
+
+        ths = [seams.SimThread(target=work, args=(i,), name=f"connector{i}") for i in range(2)]
+        try:
+            if policy.get("kind") in ("prob", "pct"):
+                w.k.start_tracing()
+            for t in ths:
+                t.start()
+            for t in ths:
+                t.join()
+        except SimAbort:
+            pass
+        finally:
+            if w.k.tracing:
+                w.k.stop_tracing()
+    res.absorb(w, exclude_kinds=("send", "recv", "deliver", "recv_call"))
+    for i, st in enumerate(steps):
+        want_ok, contradictory, cell = _expect(st)
+        oc = outcomes[i]
+        ctx = f"concurrent_connections/{cell}"
+        if oc is None or oc[0] == "abort":
+            res.violate("connect_hangs", ctx, f"connection {i}: {oc} ({w.k.abort_reason})")
+        elif contradictory:
+            continue
+        elif want_ok and oc[0] != "ok":
+            res.violate("acceptable_peer_rejected", ctx, f"connection {i} ({st}) next to ({steps[1 - i]}): {oc[1:]}")
+        elif not want_ok and oc[0] == "ok":
+            res.violate("unauthenticated_peer_accepted", ctx,
+                        f"connection {i} cert={st['cert']} name={st.get('server_hostname') or st['host']} options "
+                        f"{[st.get('cert_reqs'), st.get('check_hostname'), st.get('opt_anchor')]} was established while another thread "
+                        f"connected with {[steps[1 - i].get('cert_reqs'), steps[1 - i].get('check_hostname'), steps[1 - i].get('opt_anchor')]}")
+        elif not want_ok and tps.get(i) is not None and tps[i].app_bytes:
+            res.violate("data_sent_to_unauthenticated_peer", ctx, f"connection {i}: TLS peer decrypted {tps[i].app_bytes} bytes")
+        if res.violations:
+            break
+    res.sig = repr(("concurrent", [(_expect(st)[2], st.get("cert_reqs"), st.get("check_hostname"), st.get("opt_anchor")) for st in steps], res.sched))
+    res.nontrivial = True
+    res.probes["concurrent_connections"] = 1
     return res
 
 
@@ -409,6 +532,8 @@ def _so(sslopt):
 
 
 def sample_view(sc, r):
+    if sc.get("concurrent"):
+        return {"two_threads_connecting_at_once": [sample_view(st, r) for st in sc["concurrent"]], "policy": sc.get("policy")}
     if sc.get("steps"):
         return {"successive_connections_in_one_process": [sample_view(st, r) for st in sc["steps"]]}
     return {k: sc.get(k) for k in ("scheme", "host", "cert", "cert_reqs", "check_hostname", "opt_anchor", "env_anchor",
